@@ -32,11 +32,12 @@ var tblPipeline = []string{
 }
 
 type tblKindIface struct {
-	Name  string // pkg.Type
-	Named *types.Named
-	Iface *types.Interface
-	Enum  *Enum
-	Impls []*tblImpl
+	Name   string // pkg.Type
+	Method string // the discriminator method ("Kind", or what plays its role)
+	Named  *types.Named
+	Iface  *types.Interface
+	Enum   *Enum
+	Impls  []*tblImpl
 	// byKind: constant value → implementers whose Kind() can return it
 	byKind map[string][]*tblImpl
 }
@@ -98,6 +99,7 @@ type tblModel struct {
 	writeCache   map[*ssa.Function]*tblWrites
 	directWrites map[*ssa.Function]map[string]bool
 	inlineBusy   map[*types.Func]bool
+	originCache  *tblOrigin
 	escOnce      sync.Once
 	addrEsc      map[string]string
 
@@ -286,53 +288,55 @@ func tblModelOf(c *Ctx) *tblModel {
 			}
 		}
 	}
+	// Kind-style interfaces, by role: an interface of the module with a zero-argument method that
+	// returns a value of an enum type (the discriminator). A method called Kind is taken as it is (its
+	// implementers may carry the kind in a field); any other method qualifies only when at least two
+	// types implement the interface, every implementer's method reduces to exactly one constant and
+	// the constants are not all the same - i.e. the method really tells the implementers apart.
 	for _, nt := range m.allNamed {
 		it, ok := nt.Underlying().(*types.Interface)
 		if !ok {
 			continue
 		}
-		var km *types.Func
+		var best *tblKindIface
+		bestScore := -1
 		for i := 0; i < it.NumMethods(); i++ {
-			if it.Method(i).Name() == "Kind" {
-				km = it.Method(i)
+			km := it.Method(i)
+			sig := km.Type().(*types.Signature)
+			if sig.Params().Len() != 0 || sig.Results().Len() != 1 {
+				continue
+			}
+			en := m.enumOf(sig.Results().At(0).Type())
+			if en == nil {
+				continue
+			}
+			ki := &tblKindIface{Name: tblTypeName(nt), Named: nt, Iface: it, Enum: en, Method: km.Name(), byKind: map[string][]*tblImpl{}}
+			m.fillImpls(ki)
+			score := len(ki.byKind)
+			if km.Name() == "Kind" {
+				score = 1 << 20
+			} else {
+				allConst := len(ki.Impls) >= 2
+				for _, im := range ki.Impls {
+					if im.NonConst != "" || len(im.Kinds) != 1 {
+						allConst = false
+					}
+				}
+				if !allConst || len(ki.byKind) < 2 {
+					continue
+				}
+			}
+			if score > bestScore || (score == bestScore && best != nil && ki.Method < best.Method) {
+				best, bestScore = ki, score
 			}
 		}
-		if km == nil {
+		if best == nil {
 			continue
 		}
-		sig := km.Type().(*types.Signature)
-		if sig.Params().Len() != 0 || sig.Results().Len() != 1 {
-			continue
-		}
-		en := m.enumOf(sig.Results().At(0).Type())
-		if en == nil {
-			continue
-		}
-		ki := &tblKindIface{Name: tblTypeName(nt), Named: nt, Iface: it, Enum: en, byKind: map[string][]*tblImpl{}}
-		m.ifaces = append(m.ifaces, ki)
-		m.ifaceByTN[nt.Obj()] = ki
+		m.ifaces = append(m.ifaces, best)
+		m.ifaceByTN[nt.Obj()] = best
 	}
 	sort.Slice(m.ifaces, func(i, j int) bool { return m.ifaces[i].Name < m.ifaces[j].Name })
-	for _, ki := range m.ifaces {
-		for _, nt := range m.allNamed {
-			if _, isI := nt.Underlying().(*types.Interface); isI {
-				continue
-			}
-			val := types.Implements(nt, ki.Iface)
-			ptr := !val && types.Implements(types.NewPointer(nt), ki.Iface)
-			if !val && !ptr {
-				continue
-			}
-			im := &tblImpl{T: nt, ViaPtr: ptr}
-			m.resolveKind(im)
-			ki.Impls = append(ki.Impls, im)
-			for _, k := range im.Kinds {
-				v := k.Val().ExactString()
-				ki.byKind[v] = append(ki.byKind[v], im)
-			}
-		}
-		sort.Slice(ki.Impls, func(i, j int) bool { return ki.Impls[i].name() < ki.Impls[j].name() })
-	}
 	// uses of functions
 	for _, p := range c.All {
 		for _, file := range p.Syntax {
@@ -397,14 +401,37 @@ func tblSelOf(e ast.Expr) *ast.Ident {
 	return nil
 }
 
-// resolveKind reduces the implementer's Kind() method to the constants it can
-// return.
-func (m *tblModel) resolveKind(im *tblImpl) {
+// fillImpls finds the implementers of ki and the constants their discriminator
+// method returns.
+func (m *tblModel) fillImpls(ki *tblKindIface) {
+	for _, nt := range m.allNamed {
+		if _, isI := nt.Underlying().(*types.Interface); isI {
+			continue
+		}
+		val := types.Implements(nt, ki.Iface)
+		ptr := !val && types.Implements(types.NewPointer(nt), ki.Iface)
+		if !val && !ptr {
+			continue
+		}
+		im := &tblImpl{T: nt, ViaPtr: ptr}
+		m.resolveKind(im, ki.Method)
+		ki.Impls = append(ki.Impls, im)
+		for _, k := range im.Kinds {
+			v := k.Val().ExactString()
+			ki.byKind[v] = append(ki.byKind[v], im)
+		}
+	}
+	sort.Slice(ki.Impls, func(i, j int) bool { return ki.Impls[i].name() < ki.Impls[j].name() })
+}
+
+// resolveKind reduces the implementer's discriminator method to the constants
+// it can return.
+func (m *tblModel) resolveKind(im *tblImpl, method string) {
 	var recv types.Type = im.T
 	if im.ViaPtr {
 		recv = types.NewPointer(im.T)
 	}
-	sel := types.NewMethodSet(recv).Lookup(im.T.Obj().Pkg(), "Kind")
+	sel := types.NewMethodSet(recv).Lookup(im.T.Obj().Pkg(), method)
 	if sel == nil {
 		im.NonConst = "Kind method not found in the method set"
 		return
